@@ -277,6 +277,82 @@ def check_sources(outs):
                         'a private VERIF_CACHE)' % (build.REPO, bad, when))
 
 
+def mk_run(rid, dirname, base, ext, counts, auto=False, info=False,
+           compress=False, concat_prefix=None, concat_counts=()):
+    """A Solver-style run: dump(join(dir, '%s_%05d' % (base, count)) + ext)
+    for every count (TLC checks these names against SolverName)."""
+    if auto:
+        dirname = os.path.join(os.path.dirname(dirname), base + '_output')
+    names = [os.path.join(dirname, '%s_%05d' % (base, c)) + ext
+             for c in counts]
+    return dict(id=rid, solver=True, dir=dirname, base=base, ext=ext,
+                counts=list(counts), names=names, auto=auto, info=info,
+                compress=compress, concat_prefix=concat_prefix or '',
+                concat_counts=list(concat_counts))
+
+
+def mk_names(rid, names):
+    """Direct calls of dump with arbitrary names (no count semantics)."""
+    return dict(id=rid, solver=False, dir='', base='', ext='',
+                counts=list(range(len(names))), names=list(names), auto=False,
+                info=False, compress=False, concat_prefix='',
+                concat_counts=[])
+
+
+RUN_BASES = ['drop', 'drop_dx0.05', 'a.b.c', 'run_00100', 'r2.5_v1.0',
+             'x.npz_y', 'case.hdf5.old', 'npz', 'elliptical_drop',
+             'w_hdf5', 'dam-break_3d.1', 't_0.1_n_5']
+RUN_DIRS = ['', 'out', 'out.v1', 'a.b/c.d', 'o_00001', 'x.npz']
+RUN_COUNTS = [[0], [100, 0, 5], [99999, 100000, 7], [1, 10, 100, 1000, 10000],
+              [20, 10], [123456, 12345]]
+DIRECT = ['plain', 'drop_dx0.05', 'z.npz.bak', 'c.d/e.f', 'runhdf5',
+          'trail.', 'n.NPZ', 'a.b_c.d', 'x.y.npz', 'x.y.hdf5', 'd.1/s.npz',
+          'count_00100', 'v1.5/r_0.25']
+DIRECT_SUFFIX = ['snap_npz', 'a.b_npz', 'a.b_hdf5', 'o.1/c.d_npz']
+
+
+def gen_runs(seed, quick):
+    runs = []
+    k = 0
+    for base in RUN_BASES:
+        for ext in ('', '.npz', '.hdf5'):
+            k += 1
+            runs.append(mk_run(
+                'run:%d' % k, RUN_DIRS[k % len(RUN_DIRS)], base, ext,
+                RUN_COUNTS[k % len(RUN_COUNTS)], auto=(k % 3 == 0),
+                info=(k % 6 == 0), compress=(k % 4 == 0)))
+    rng = random.Random('runs:%d' % seed)
+    alpha = ['a', 'b', '.', '_', '0', '5', '1', '-', 'n', 'z']
+    for i in range(12 if quick else 150):
+        def word(lo, hi):
+            while True:
+                w = ''.join(rng.choice(alpha)
+                            for j in range(rng.randint(lo, hi)))
+                if w.strip('.') and not w.startswith('.'):
+                    return w
+        dirname = '/'.join(word(1, 5) for j in range(rng.randint(0, 2)))
+        counts = rng.sample([0, 1, 7, 10, 99, 100, 5000, 99999, 100000,
+                             250000], rng.randint(1, 4))
+        runs.append(mk_run('runr:%d:%d' % (seed, i), dirname, word(1, 8),
+                           rng.choice(['', '', '.npz', '.hdf5']), counts,
+                           auto=rng.random() < 0.4, info=rng.random() < 0.3))
+    # rank-style names and load_and_concatenate (npz only, as it documents)
+    runs.append(mk_run('runc:0', 'out', 'p_0', '.npz', [5, 100, 20000],
+                       concat_prefix='p', concat_counts=[-1, 20000]))
+    runs.append(mk_run('runc:1', 'o.1', 'q.5_0', '.npz', [12345, 100000],
+                       concat_prefix='q.5', concat_counts=[-1, 12345, 100000]))
+    runs.append(mk_run('runc:2', 'out', 'p_0', '.npz', [5, 100, 20000],
+                       concat_prefix='p', concat_counts=[5, 100]))
+    runs.append(mk_run('runc:3', 'out', 's_0', '.npz', [3, 40],
+                       concat_prefix='s', concat_counts=[-1]))
+    for i, n in enumerate(DIRECT):
+        runs.append(mk_names('name:%d' % i, [n]))
+    runs.append(mk_names('names:all', DIRECT))
+    for i, n in enumerate(DIRECT_SUFFIX):
+        runs.append(mk_names('namesfx:%d' % i, [n]))
+    return runs
+
+
 def crash_record(case, ci, rc):
     combo = case['combos'][ci]
     return dict(id='%s/%d' % (case['id'], ci), fmt=combo[0],
